@@ -232,11 +232,11 @@ def run_case(desc):
     def on_alarm(signum, frame):
         raise Hang()
     old = signal.signal(signal.SIGALRM, on_alarm)
-    signal.setitimer(signal.ITIMER_REAL, 3.0)
+    signal.setitimer(signal.ITIMER_REAL, 60.0)
     try:
         return G.run_impl(desc)
     except Hang:
-        return {"kind": "raised", "exc": "HANG: extract() did not return within 3 s on this input"}
+        return {"kind": "raised", "exc": "HANG: extract() did not return within 60 s on this input"}
     finally:
         signal.setitimer(signal.ITIMER_REAL, 0)
         signal.signal(signal.SIGALRM, old)
